@@ -172,6 +172,7 @@ type lpOp struct {
 	n      int      // SENDZ
 	hist   []string // option history of the sending link service: "fi" items (fragmentation, incoming-face indication):
 	// constructed with the first, SetOptions for each further one; the last equals (frag, ifi). nil = constructed with (frag, ifi)
+	own   bool   // SEND: the link service itself decides to mark congestion (marking enabled, send queue above the threshold, interval elapsed)
 	keep  bool   // SEND: on the link service (and transport) of the previous SEND of the case; seq is then the service's own counter
 	frame []byte // RECV
 	// filled when a SEND is executed with capture
@@ -238,6 +239,9 @@ func opHeader(o *lpOp) string {
 	if o.keep {
 		h += " keep=1"
 	}
+	if o.own {
+		h += " own=1"
+	}
 	return h
 }
 
@@ -300,6 +304,22 @@ func runLpCase(w *bufio.Writer, c *lpCase, r *rand.Rand) {
 					snd.SetOptions(senderOptions(it, k+1))
 				}
 			}
+			if o.own {
+				// congestion: marking switched on, threshold and interval 0, a non-empty send queue, and one small packet already
+				// sent (the link looks at the queue only after more than the threshold has gone out): the link marks this packet itself
+				face.VerifSetCongestionMarking(true)
+				op := snd.Options()
+				op.IsCongestionMarkingEnabled = true
+				op.DefaultCongestionThresholdBytes = 0
+				op.BaseCongestionMarkingInterval = 0
+				snd.SetOptions(op)
+				st.QueueSize = 1 << 20
+				func() {
+					defer func() { recover() }()
+					face.VerifSendPacket(snd, dispatch.OutPkt{Pkt: &defn.Pkt{Raw: []byte{5, 3, 7, 1, 8}, L3: &spec.Packet{}}})
+				}()
+				st.Reset()
+			}
 			if !(o.keep && snd == prevSnd) {
 				face.VerifSetNextSequence(snd, o.seq)
 			}
@@ -322,6 +342,10 @@ func runLpCase(w *bufio.Writer, c *lpCase, r *rand.Rand) {
 				}()
 				face.VerifSendPacket(snd, dispatch.OutPkt{Pkt: pkt, PitToken: o.tok, InFace: o.inface})
 			}()
+			if o.own {
+				face.VerifSetCongestionMarking(false)
+				st.QueueSize = 0
+			}
 			if o.kind == "SENDZ" {
 				fmt.Fprintf(w, "FZ %s\nOZ %s\n", sigList(st.Frames), sigList(st.Dropped))
 			} else {
@@ -735,6 +759,9 @@ func genPermCase(r *rand.Rand, idx int, thorough bool) *lpCase {
 		if r.Intn(4) == 0 {
 			o.hist = randHist(r, frag, ifi)
 		}
+		if r.Intn(5) == 0 {
+			o.own = true
+		}
 		c.ops = append(c.ops, o)
 		seq += 400 // more than any packet needs (<= 275 fragments); wraps like the real counter
 	}
@@ -827,7 +854,7 @@ func genHistCase(r *rand.Rand, idx int, thorough bool) *lpCase {
 		if target > 8800 {
 			target = 8800 - r.Intn(50)
 		}
-		o := &lpOp{kind: "SEND", mtu: mtu, frag: frag, ifi: ifi, seq: seq, tok: pickToken(r, c.nthreads), mark: pickOptU(r), wire: mkData(r, target), hist: hist}
+		o := &lpOp{kind: "SEND", mtu: mtu, frag: frag, ifi: ifi, seq: seq, tok: pickToken(r, c.nthreads), mark: pickOptU(r), wire: mkData(r, target), hist: hist, own: r.Intn(4) == 0}
 		if r.Intn(4) != 0 {
 			o.inface = utils.IdPtr([]uint64{1, 255, 256, 70000, 1 << 32, 1<<64 - 1}[r.Intn(6)])
 		}
@@ -1136,7 +1163,7 @@ func genSweepCase(r *rand.Rand, idx int, mtu int, sizes []int) *lpCase {
 		if hist != nil {
 			seq += 1 << 32
 		}
-		c.ops = append(c.ops, &lpOp{kind: "SENDZ", mtu: mtu, frag: frag, ifi: ifi, seq: seq, tok: tok, inface: inface, mark: mark, n: n, hist: hist})
+		c.ops = append(c.ops, &lpOp{kind: "SENDZ", mtu: mtu, frag: frag, ifi: ifi, seq: seq, tok: tok, inface: inface, mark: mark, n: n, hist: hist, own: idx%3 == 2})
 	}
 	return c
 }
@@ -1470,6 +1497,7 @@ func readLpCases(path string) ([]*lpCase, error) {
 				o.hist = strings.Split(h, ",")
 			}
 			o.keep = kv["keep"] == "1"
+			o.own = kv["own"] == "1"
 			if fs[0] == "SEND" {
 				o.wire = unhx(kv["wire"])
 			} else {
